@@ -51,6 +51,9 @@ def run(c):
         behs = proto.simulate(c, cfg, 2000 if thorough else 250, 16)
         res = proto.replay(c, behs, native, nk, insts, drain=False)
         proto.absorb_filtered(c, res, 'C06')
+    # the same steps on DBIs of several hundred entries with values of very different lengths (pages split and
+    # records move while LS iterates and writes): content against the per-key last-writer-wins reference
+    vlib.absorb(c, vlib.run_harness(['bulk', 'C06'], timeout=600))
     c.assumptions += ['wall clock does not step backwards between two snapshots of one instance',
                       'shadow mode: the application cannot commit while the dump holds the write lock (LMDB single writer)']
     c.extra['rule'] = 'TLC interleavings of application commits with the steps of the dump, replayed on the real SendOnce through its in-transaction hooks'
